@@ -52,9 +52,56 @@ def mutate_xml(xml, r):
     ET.register_namespace("", "http://www.w3.org/2005/07/scxml")
     root = ET.fromstring(xml)
     elems = list(root.iter())
+    NS = "{http://www.w3.org/2005/07/scxml}"
+    dm = root.get("datamodel", "null")
     for _ in range(r.randint(1, 3)):
-        kind = r.choice(["delattr", "delattr", "move", "dup", "retag", "setattr", "delelem", "emptyattr"])
+        kind = r.choice(["delattr", "delattr", "move", "dup", "retag", "setattr", "delelem", "emptyattr", "exotic"])
         e = r.choice(elems)
+        if kind == "exotic":
+            # valid constructs the chart generator does not produce: arrays and <foreach> (declared with and without a
+            # value), <script>, <donedata> with <param>/<content>, <content> in <send>; put where they are executed
+            blocks = [x for x in elems if x.tag in (NS + "onentry", NS + "onexit", NS + "transition")]
+            finals = [x for x in elems if x.tag == NS + "final"]
+            dmel = root.find(NS + "datamodel")
+            if dmel is None and dm != "null":
+                dmel = ET.Element(NS + "datamodel")
+                root.insert(0, dmel)
+            what = r.choice(["foreach", "foreach", "script", "donedata", "sendcontent"])
+            if what == "foreach" and dm != "null" and blocks and dmel is not None:
+                arr = "arr%d" % r.randint(0, 9)
+                if dm == "promela":
+                    at = {"id": arr, "type": "int[%d]" % r.randint(1, 3)}
+                    if r.random() < 0.5:
+                        at["expr"] = "[" + ",".join(str(r.randint(0, 3)) for _ in range(r.randint(0, 4))) + "]"
+                    ET.SubElement(dmel, NS + "data", at)
+                    for v in ("it", "ix"):
+                        ET.SubElement(dmel, NS + "data", {"id": v, "type": "int", "expr": "0"})
+                else:
+                    ET.SubElement(dmel, NS + "data", {"id": arr, "expr": r.choice(["{1,2,3}", "{}", "nil", "5", "{a=1}"])})
+                fe = ET.Element(NS + "foreach", {"array": r.choice([arr, arr, "nosucharray"]), "item": "it", "index": "ix"})
+                ET.SubElement(fe, NS + "log", {"label": "fe", "expr": r.choice(["it", "ix", arr + "[ix]", arr + "[it]", arr + "[0 - 1]", arr + "[99]"]) if dm == "promela" else r.choice(["it", "ix", arr + "[ix]"])})
+                blk = r.choice(blocks)
+                blk.insert(r.randint(0, len(blk)), fe)
+            elif what == "script" and dm == "lua" and blocks:
+                sc = ET.Element(NS + "script")
+                sc.text = r.choice(["g = (g or 0) + 1", "local t = {} t[1] = nil", "error('boom')", "x = ", "return 1"])
+                blk = r.choice(blocks)
+                blk.insert(r.randint(0, len(blk)), sc)
+            elif what == "donedata" and finals:
+                dd = ET.SubElement(r.choice(finals), NS + "donedata")
+                if r.random() < 0.5:
+                    ET.SubElement(dd, NS + "param", {"name": "p", "expr": r.choice(["1", "nosuchvar", "1 +"])})
+                else:
+                    c = ET.SubElement(dd, NS + "content")
+                    c.text = r.choice(["plain text", "{ \"a\": 1 }", "<unclosed"])
+            elif what == "sendcontent" and blocks:
+                sd = ET.Element(NS + "send", {"event": "withcontent"})
+                c = ET.SubElement(sd, NS + "content")
+                c.text = r.choice(["text", "{ \"k\": [1,2] }", ""])
+                blk = r.choice(blocks)
+                blk.insert(r.randint(0, len(blk)), sd)
+            elems = list(root.iter())
+            continue
         if kind == "delattr" and e.attrib:
             del e.attrib[r.choice(sorted(e.attrib))]
         elif kind == "emptyattr" and e.attrib:
